@@ -7,7 +7,11 @@ import GMModel.Gro
     dy     : `<sign 0|1> <mantissa> <exponent>`            value (-1)^s · m · 2^e
     pynum  : `F <sign> <mantissa> <e10>` | `I <sign>` | `N <sign>`
     rec    : `<resnum> <hex resname> <hex name> <atomnum> <dy x> <dy y> <dy z> <0|1> [<dy vx> <dy vy> <dy vz>]`
-    op     : `c <hex>` | `b3 <dy>×3` | `b9 <dy>×9` | `n <int>` | `f <w> <d>` | `w <rec>` | `x`
+    op     : `c <hex>` | `b3 <dy>×3` | `b9 <dy>×9` | `bx` | `n <int>` | `f <w> <d>` | `w <rec>` | `s <hex line>`
+             | `t <len>` | `x`
+    rop    : `c <hex>` | `b3 <dy>×3` | `b9 <dy>×9` | `bx` | `n <int>` | `f <w> <d>` | `k <index>` | `l <parsed 0|1>`
+    fd     : `N` | `D - <fv 0|1|2>` | `D P <w> <d> <fv 0|1|2>`        (`format_dict`; fv 2 = None)
+    tup    : `r <rec>` | `o <len>`
 -/
 
 namespace DGro
@@ -57,7 +61,52 @@ def rdOp : Rd Op := do
     pure (.setPosFmt w d)
   | "w" => pure (.writeLine (← rdRec))
   | "x" => pure .close
+  | "bx" => pure .setBoxBadShape
+  | "s" => pure (.writeStr (← rdBytes))
+  | "t" => pure (.writeTup (← Rd.nat))
   | _ => throw s!"bad op kind '{k}'"
+
+def rdROp : Rd ROp := do
+  let k ← Rd.tok
+  match k with
+  | "c" => pure (.setComment (← rdBytes))
+  | "b3" => do
+    let a ← rdDy; let b ← rdDy; let c ← rdDy
+    pure (.setBox (.vec a b c))
+  | "b9" => pure (.setBox (.mat (← rdBox9)))
+  | "bx" => pure .setBoxBadShape
+  | "n" => pure (.setNatoms (← Rd.int))
+  | "f" => do
+    let w ← Rd.nat; let d ← Rd.nat
+    pure (.setPosFmt w d)
+  | "k" => pure (.seekAtom (← Rd.int))
+  | "l" => pure (.readline (← Rd.bool))
+  | _ => throw s!"bad reader op kind '{k}'"
+
+def rdFv : Rd (Option Bool) := do
+  let fv ← Rd.nat
+  pure (if fv == 2 then none else some (fv == 1))
+
+def rdFmtDict : Rd (Option FmtDict) := do
+  let k ← Rd.tok
+  match k with
+  | "N" => pure none
+  | "D" => do
+    let p ← Rd.tok
+    match p with
+    | "-" => pure (some ⟨none, ← rdFv⟩)
+    | "P" => do
+      let w ← Rd.nat; let d ← Rd.nat
+      pure (some ⟨some (w, d), ← rdFv⟩)
+    | _ => throw s!"bad position format '{p}'"
+  | _ => throw s!"bad format_dict '{k}'"
+
+def rdTup : Rd Tup := do
+  let k ← Rd.tok
+  match k with
+  | "r" => pure (.ofRec (← rdRec))
+  | "o" => pure (.other (← Rd.nat))
+  | _ => throw s!"bad tuple kind '{k}'"
 
 def wrBool (b : Bool) : String := if b then "1" else "0"
 
@@ -82,6 +131,20 @@ def wrErrOpt : Option PyErr → String
 def wrExcept {α : Type} (f : α → String) : Except PyErr α → String
   | .ok a => "ok " ++ f a
   | .error e => "err " ++ e.name
+
+def wrDyOpt : Option Dy → String
+  | none => "X"
+  | some x => s!"F {wrBool x.neg} {x.man} {x.exp}"
+
+/-- result of a reader op, then `tell()` and `_current_atom`: `U` | `L <hex>` | `P <rrec>` | `E <err>` -/
+def wrRRes (x : Except PyErr RVal × Nat × Int) : String :=
+  let v :=
+    match x.1 with
+    | .error e => "E " ++ e.name
+    | .ok .unit => "U"
+    | .ok (.raw l) => "L " ++ wrBytes l
+    | .ok (.parsed r) => "P " ++ wrRRec r
+  s!"{v} {x.2.1} {x.2.2}"
 
 /-- header of an opened file -/
 def wrRState (st : RState) : String :=
@@ -141,6 +204,22 @@ def handle : Handler
   | "gro_extlat" => some do
       let b ← rdBytes; Rd.done
       pure (wrExcept wrRBox (extractLattice pyFloat b))
+  | "gro_alist" => some do
+      let fd ← rdFmtDict; let t ← rdTup; Rd.done
+      pure (wrExcept wrBytes (parseAtomlistG fd t))
+  | "gro_parseauto" => some do
+      let b ← rdBytes; Rd.done
+      pure (wrExcept wrRRec (parseAtomlineAuto stdParsers b))
+  | "ps_float_dy" => some do
+      let b ← rdBytes; Rd.done
+      pure (wrExcept (fun (q : PyNum) => wrDyOpt q.toDy) (pyFloat b))
+  | "gro_rsession" => some do
+      let b ← rdBytes; let ops ← Rd.listOf rdROp; Rd.done
+      match ropen stdParsers b with
+      | .error e => pure ("err " ++ e.name)
+      | .ok s =>
+        let (_, rs) := rrun stdParsers b s ops
+        pure s!"ok {wrRState s.hdr} {Wr.list wrRRes rs}"
   | "gro_write" => some do
       let ops ← Rd.listOf rdOp; Rd.done
       let (s, es) := run WState.init ops
